@@ -197,4 +197,4 @@ def parts():
     import os
 
     big = os.environ.get("VERIF_TIER") == "thorough"
-    return [Part("emulate", cases(7 if big else 5), check, quick=1500, thorough=30000, min_nontrivial=0.2)]
+    return [Part("emulate", cases(7 if big else 5), check, quick=4000, thorough=60000, min_nontrivial=0.2)]
